@@ -82,17 +82,41 @@ def outer_fun(ops) -> str:
     return f
 
 
-def qrule(rule) -> tuple[str, bool, list[str]]:
-    """Gallina `qrule`, domain flag, and structural problems (strings) for a quantifier/modal rule."""
+def vfun_tree(s, hole):
+    "Schema over the element hole -> ('id',) | ('un', op, f) | ('bin', op, f, g)."
+    if hole(s):
+        return ('id',)
+    if 'un' in s:
+        return ('un', s['un'], vfun_tree(s['a'], hole))
+    if 'bin' in s:
+        return ('bin', s['bin'], vfun_tree(s['a'], hole), vfun_tree(s['b'], hole))
+    raise Inexpressible(f'not an element function: {s}')
+
+
+def vfun_coq(f) -> str:
+    if f[0] == 'id':
+        return 'FId'
+    if f[0] == 'un':
+        return f'(FUn {f[1]} {vfun_coq(f[2])})'
+    return f'(FBin {f[1]} {vfun_coq(f[2])} {vfun_coq(f[3])})'
+
+
+def outer_tree(ops):
+    f = ('id',)
+    for o in reversed(ops):
+        f = ('un', o, f)
+    return f
+
+
+def qrule_struct(rule):
+    """Structured form of a quantifier/modal rule:
+    dict(is_q, univ, neg, d, tick, groups=[[cond]], problems=[...]) with
+    cond = ('ex', [(vfun, d)]) | ('all', vfun, d) | ('gen', univ, vfun, outer vfun, d)."""
     kind = rule['kind']
     problems = []
     is_q = kind == 'quant'
     gen_name = rule['quantifier'] if is_q else rule['operator']
     univ = gen_name in ('Universal', 'Necessity')
-    outer = 'FId'
-    if rule['negated']:
-        outer = '(FUn Negation FId)'
-    principal = f"CGen {str(univ).lower()} FId {outer} {dval(rule['designation'])}"
     variants = {v['setup']: v['applied'] for v in rule['variants']}
 
     if is_q:
@@ -103,16 +127,15 @@ def qrule(rule) -> tuple[str, bool, list[str]]:
             return s.get('opd') == 0
 
     def whole(n):
-        "A node that is a generalised sentence over the same body at the same world -> CGen."
         ops, core = split_outer(n['s'])
         if is_q and 'q' in core:
-            u = core['q'] == 'Universal'
-            return f"CGen {str(u).lower()} {vfun(core['a'], lambda s: s.get('body') == 'bvar')} {outer_fun(ops)} {dval(n['d'])}"
+            return ('gen', core['q'] == 'Universal', vfun_tree(core['a'], lambda s: s.get('body') == 'bvar'),
+                    outer_tree(ops), n['d'])
         if not is_q and 'mod' in core:
-            u = core['mod'] == 'Necessity'
-            return f"CGen {str(u).lower()} {vfun(core['a'], hole)} {outer_fun(ops)} {dval(n['d'])}"
+            return ('gen', core['mod'] == 'Necessity', vfun_tree(core['a'], hole), outer_tree(ops), n['d'])
         raise Inexpressible(f"{rule['name']}: node is neither an instance nor a generalised sentence: {n}")
 
+    groups = []
     if rule['ticking']:
         app = variants['empty' if is_q else 'noaccess']
         app2 = variants['consts' if is_q else 'access']
@@ -120,11 +143,8 @@ def qrule(rule) -> tuple[str, bool, list[str]]:
             problems.append('ticking modal rule behaves differently with/without a pre-existing access node')
         if len(app) != 1 or 'adds' not in app[0]:
             raise Inexpressible(f"{rule['name']}: expected one application, got {app}")
-        groups = []
         for g in app[0]['adds']:
-            ex = []
-            conds = []
-            acc_ok = False
+            ex, conds, acc_ok = [], [], False
             for n in g:
                 if 'acc' in n:
                     if n['acc'] == ['same', 'new']:
@@ -138,14 +158,14 @@ def qrule(rule) -> tuple[str, bool, list[str]]:
                     if n.get('w') not in (None, 'same'):
                         raise Inexpressible(f"{rule['name']}: quantifier rule leaves its world: {n}")
                     if _mentions(n['s'], 'new'):
-                        ex.append(f"({vfun(n['s'], lambda s: s.get('body') == 'new')}, {dval(n['d'])})")
+                        ex.append((vfun_tree(n['s'], lambda s: s.get('body') == 'new'), n['d']))
                     elif _mentions(n['s'], 'any'):
                         raise Inexpressible(f"{rule['name']}: ticking rule instantiates an existing constant")
                     else:
                         conds.append(whole(n))
                 else:
                     if n.get('w') == 'new':
-                        ex.append(f"({vfun(n['s'], hole)}, {dval(n['d'])})")
+                        ex.append((vfun_tree(n['s'], hole), n['d']))
                     elif n.get('w') == 'same':
                         conds.append(whole(n))
                     else:
@@ -153,13 +173,11 @@ def qrule(rule) -> tuple[str, bool, list[str]]:
             if ex:
                 if not is_q and not acc_ok:
                     problems.append('new-world nodes without the access node from the principal world')
-                conds.insert(0, 'CEx [' + '; '.join(ex) + ']')
+                conds.insert(0, ('ex', ex))
             elif acc_ok:
                 problems.append('access node to a new world that carries no sentence')
-            groups.append('[' + '; '.join(conds) + ']')
-        body = '; '.join(groups)
+            groups.append(conds)
     else:
-        # re-applying rule: one instance per existing constant / accessible world
         app = variants['consts' if is_q else 'access']
         if not is_q and variants['noaccess']:
             problems.append('per-accessible-world rule applied although the principal world accesses nothing')
@@ -172,18 +190,36 @@ def qrule(rule) -> tuple[str, bool, list[str]]:
         if is_q:
             if not _mentions(n['s'], 'any') or n.get('w') not in (None, 'same'):
                 raise Inexpressible(f"{rule['name']}: instance does not use the existing constant: {n}")
-            f = vfun(n['s'], lambda s: s.get('body') == 'any')
+            f = vfun_tree(n['s'], lambda s: s.get('body') == 'any')
             emp = variants['empty']
             if emp and 'adds' in emp[0]:
                 n0 = emp[0]['adds'][0][0]
-                if vfun(n0['s'], lambda s: 'body' in s) != f or n0['d'] != n['d']:
+                if vfun_tree(n0['s'], lambda s: 'body' in s) != f or n0['d'] != n['d']:
                     problems.append('instance on a constant-free branch differs from the per-constant instance')
         else:
             if n.get('w') != 'acc' or a0.get('nodes') != 2:
                 raise Inexpressible(f"{rule['name']}: instance is not at the accessible world: {n} {a0}")
-            f = vfun(n['s'], hole)
-        body = f"[CAll {f} {dval(n['d'])}]"
-    return f'{{| q_principal := {principal}; q_groups := [{body}] |}}', is_q, problems
+            f = vfun_tree(n['s'], hole)
+        groups.append([('all', f, n['d'])])
+    return dict(is_q=is_q, univ=univ, neg=bool(rule['negated']), d=rule['designation'], tick=bool(rule['ticking']),
+                groups=groups, problems=problems)
+
+
+def cond_coq(c) -> str:
+    if c[0] == 'ex':
+        return 'CEx [' + '; '.join(f'({vfun_coq(f)}, {dval(d)})' for f, d in c[1]) + ']'
+    if c[0] == 'all':
+        return f'CAll {vfun_coq(c[1])} {dval(c[2])}'
+    return f"CGen {str(c[1]).lower()} {vfun_coq(c[2])} {vfun_coq(c[3])} {dval(c[4])}"
+
+
+def qrule(rule) -> tuple[str, bool, list[str]]:
+    """Gallina `qrule`, domain flag, and structural problems (strings) for a quantifier/modal rule."""
+    st = qrule_struct(rule)
+    outer = '(FUn Negation FId)' if st['neg'] else 'FId'
+    principal = f"CGen {str(st['univ']).lower()} FId {outer} {dval(st['d'])}"
+    body = '; '.join('[' + '; '.join(cond_coq(c) for c in g) + ']' for g in st['groups'])
+    return f'{{| q_principal := {principal}; q_groups := [{body}] |}}', st['is_q'], st['problems']
 
 
 def _mentions(s, what) -> bool:
